@@ -7,7 +7,7 @@ HEADLINE = ["c10_pairs_checked", "c10_producer_steps", "c10_producer_steps_consu
 
 def plan(tier, seed, scale):
     return {"n_cases": sizes(tier, scale, 2400, 60000), "variants": 4, "force_lazy": True,
-            "profiles": ["lazy", "lazy_flat", "core", "data", "big", "par"],
+            "profiles": ["lazy", "lazy_flat", "core", "data", "big", "par", "wild", "sibling"],
             "remote_cases": int((32 if tier == "quick" else 1600) * scale),
             "dfs_cases": int((96 if tier == "quick" else 1600) * scale), "dfs_cap": 300 if tier == "quick" else 20000,
             "dfs_budget_s": 1.5 if tier == "quick" else 20.0,
